@@ -58,13 +58,13 @@ theorem allocLink_err (ft : FatType) (f : Array Nat) (prev : Option Nat) (n : Na
 
 /-- NotEnoughSpace from `alloc_cluster` comes from the scans, i.e. from the view-level allocator -/
 theorem allocCluster_noSpace_inv {ft : FatType} {f : Array Nat} {total : Nat} (ht : TableOk ft f total)
-    (prev hint : Option Nat) (hstart : allocStartV hint total < total + 2)
+    (prev hint : Option Nat)
     (h : (allocCluster f ft prev hint total).out = .error .noSpace) :
     allocFindV (view ft f) hint total = none := by
   have hsmall := ht.small
   unfold allocCluster at h
   rw [if_neg (by cases ft <;> simp only [badMark, u32Lim] at * <;> omega)] at h
-  rw [allocFind_sim ht hint hstart] at h
+  rw [allocFind_sim ht hint] at h
   cases hf : allocFindV (view ft f) hint total with
   | none => rfl
   | some c =>
